@@ -204,6 +204,10 @@ func zzvDamageValues(w *ref.CFWriter, offs []uint32) []uint32 {
 	vals := []uint32{0, 1, 31, 32, w.HdrLen, w.HdrLen + 4, uint32(len(w.Data)) - 16, uint32(len(w.Data)) - 4, uint32(len(w.Data)), uint32(len(w.Data)) + 32, 0xffffffff, 0xff000001, 0x00ffffff}
 	for _, o := range offs {
 		vals = append(vals, o, o+1, o+4, o+32)
+		// name lengths that make the record's name end just before, at, and up to
+		// 17 bytes past the end of the file
+		fit := uint32(len(w.Data)) - o - 16
+		vals = append(vals, fit-1, fit, fit+1, fit+8, fit+16, fit+17, fit|0xff000000, (fit+1)|0xff000000)
 	}
 	lim := binary.LittleEndian.Uint32(w.Data[w.HdrLen:])
 	vals = append(vals, lim, lim-32)
@@ -234,7 +238,8 @@ func TestVerifC06(t *testing.T) {
 	// A. Whole-file variants.
 	lengths := []int{0, 1, 27, 28, 31, 32, 16383, 16384, 16385, 32768}
 	prefixes := map[string]string{"ok": ref.CFPrefix, "oneoff": "# telemetry/counter file v1\r", "v2": "# telemetry/counter file v2\n"}
-	metas := map[string]string{"ok": zzvMetaOK, "none": "", "nosep": "TimeBegin 2024\n\n", "nul-inside": "A: b\x00C: d\n", "unterminated": "A: b", "dupkey": "A: b\nA: c\n\n", "max": "K: " + strings.Repeat("v", 505) + "\n\n"}
+	metas := map[string]string{"ok": zzvMetaOK, "none": "", "nosep": "TimeBegin 2024\n\n", "nul-inside": "A: b\x00C: d\n", "unterminated": "A: b", "dupkey": "A: b\nA: c\n\n", "max": "K: " + strings.Repeat("v", 505) + "\n\n",
+		"colon-in-value": "Program: example.com/cmd: the tool\nVersion: v1: x: y\n\n", "empty-value": "K: \nL: v\n\n", "space-key": "A B: c\n\n", "colon-key": "A:B: c\n\n", "value-ends-colon": "K: v:\nL: : \n\n"}
 	for _, L := range lengths {
 		for pn, pv := range prefixes {
 			for mn, mv := range metas {
